@@ -161,23 +161,23 @@ func (c *ctx) genCFList(invalid bool) []interface{} {
 func (c *ctx) genJoinFrame(invalid bool) M {
 	switch c.rnd.Intn(5) {
 	case 0:
-		return M{"kind": "joinreq", "mtype": 0, "major": 0, "mic": c.ints(4), "joineui": c.ints(8), "deveui": c.ints(8), "devnonce": c.rnd.Intn(65536)}
+		return M{"kind": "joinreq", "mtype": 0, "major": 0, "mic": c.ints(4), "joineui": c.ints(8), "deveui": c.ints(8), "devnonce": c.edgeN(65536)}
 	case 1:
 		t := c.pick(0, 2)
 		if invalid {
 			t = c.pick(1, 3, 255)
 		}
-		return M{"kind": "rejoin02", "mtype": 6, "major": 0, "mic": c.ints(4), "rjtype": t, "netid": c.ints(3), "deveui": c.ints(8), "rjcount": c.rnd.Intn(65536)}
+		return M{"kind": "rejoin02", "mtype": 6, "major": 0, "mic": c.ints(4), "rjtype": t, "netid": c.ints(3), "deveui": c.ints(8), "rjcount": c.edgeN(65536)}
 	case 2:
 		t := 1
 		if invalid {
 			t = c.pick(0, 2, 3)
 		}
-		return M{"kind": "rejoin1", "mtype": 6, "major": 0, "mic": c.ints(4), "rjtype": t, "joineui": c.ints(8), "deveui": c.ints(8), "rjcount": c.rnd.Intn(65536)}
+		return M{"kind": "rejoin1", "mtype": 6, "major": 0, "mic": c.ints(4), "rjtype": t, "joineui": c.ints(8), "deveui": c.ints(8), "rjcount": c.edgeN(65536)}
 	case 3:
 		return M{"kind": "raw", "mtype": 7, "major": 0, "mic": c.ints(4), "bytes": c.ints(c.rnd.Intn(20))}
 	default:
-		jn := le32(uint32(c.rnd.Intn(1 << 24)))
+		jn := le32(uint32(c.edgeN(1 << 24)))
 		rxd := c.rnd.Intn(16)
 		rx2, rx1 := c.rnd.Intn(16), c.rnd.Intn(8)
 		if invalid {
